@@ -272,7 +272,20 @@ def run(ctx) -> None:
     raises = [n for n in acfg.live_nodes() if n.kind == "stmt" and isinstance(n.ast, ast.Raise)]
     from .common import def_use_closure
 
-    dup = any(isinstance(t.ast, ast.Compare) and isinstance(t.ast.ops[0], ast.In) and (table_attr in ast.unparse(t.ast) or f"self.{table_attr}" in def_use_closure(addc, t.ast.comparators[0])) and any(isinstance(acfg.nodes[d].ast, ast.Raise) for d, lab in t.succ if lab == "t") for t in acfg.live_nodes() if t.kind == "test")
+    def _membership_conjuncts(e) -> list:
+        # the `alias in <table>` tests that must hold for `e` to be true (conjuncts of an `and`)
+        if isinstance(e, ast.BoolOp) and isinstance(e.op, ast.And):
+            return [c for v in e.values for c in _membership_conjuncts(v)]
+        if isinstance(e, ast.Compare) and len(e.ops) == 1 and isinstance(e.ops[0], ast.In):
+            return [e]
+        return []
+
+    dup = any(
+        any(table_attr in ast.unparse(c_) or f"self.{table_attr}" in def_use_closure(addc, c_.comparators[0]) for c_ in _membership_conjuncts(t.ast))
+        and any(isinstance(acfg.nodes[d].ast, ast.Raise) for d, lab in t.succ if lab == "t")
+        for t in acfg.live_nodes()
+        if t.kind == "test" and isinstance(t.ast, ast.AST)
+    )
     rep.check("C14.R6", dup, addc, addc.node, "a duplicate alias is rejected", "a duplicate alias silently replaces the earlier child")
     started_flag = [t for t in acfg.live_nodes() if t.kind == "test" and self_attr(t.ast) is not None and "start" in self_attr(t.ast)]
     rep.check("C14.R6", bool(started_flag) and bool(store_node) and acfg.dominates(started_flag[0].id, store_node[0].id), addc, addc.node, "add_component after start_component is rejected", "children can still be added after the component was started")
